@@ -69,6 +69,11 @@ def gen(rng, tier):
         v = ('e', 's', 'u', [(('s', b"b"), ('u', 1)), (('s', b"a"), ('u', 2)), (('s', b"b"), ('u', 3))])
         b, _ = G.marshal(('r', [v]), big, 0)
         yield G.case_de_s("--", big, 0, 0, "a{su}", b)
+    # SIGNATURE values at the 255-byte limit of the WIRE text, with and without outer parentheses
+    for n in (253, 254, 255):
+        for big in (False, True):
+            yield G.case_de_s("--", big, 0, 0, "g", bytes([n]) + b"y" * n + b"\0")
+            yield G.case_de_s("--", big, 0, 0, "g", bytes([n]) + b"(" + b"y" * (n - 2) + b")\0")
     if LENIENT_SIG_CASES:
         for c in lenient_sig_cases(rng):
             yield c
